@@ -278,7 +278,7 @@ func run(r *core.Run) {
 	r.Assume("a number or string carrying exactly one quote level is the same value as the unquoted one (docs/lang.md: 'Quoted numbers and strings are equivalent to their unquoted counterparts'); the printer does not show that level and the comparison normalises it; two or more levels are compared exactly")
 	r.Assume("an integral float may read back as an int ('numbers compared numerically'); negative zero is exempt from the reprint comparison only, it must still read back numerically equal")
 	r.Assume("a reader 'accepts' a text iff it returns no error (fault-tolerant: an empty Errors list); trees are compared by type, payload, quote flag and children, never by position or formatting metadata")
-	r.Assume("layout = the separators between complete expressions and brackets; the gap between a prefix (' #' #^) and its operand is part of the text's identity, not layout; the empty separator is layout only next to a bracket; a glued comment only after a bracket")
+	r.Assume("layout = the separators between complete expressions and brackets; the gap between a prefix (' #' #^) and its operand is part of the text's identity, not layout; the empty separator is layout only next to a bracket and right after the closing quote of a string literal (which completes the literal; excepted: a quote right after the empty literal or after a raw string); a glued comment only in those places")
 	r.Assume("whitespace = unicode.IsSpace, the class the unchanged scanner's AcceptSpace skips (enumerated from the Go unicode tables, not from the code under test); a comment runs to LF, so every comment separator ends in LF and a bare CR never ends a comment")
 	r.Assume("UNSPECIFIED: whether a hash-bang line is honoured after leading comments (ParseProgram documents 'potentially preceded by a hash-bang'): leading layout is not varied for sequences that start with #!")
 	r.Assume("'readable symbol spelling' is decided by an independent predicate written from docs/lang.md and the unchanged lexer's character classes (drivers/c12/symmodel.go), never by the reader under test; the reader is compared with it on every enumerated spelling")
@@ -552,7 +552,7 @@ func run(r *core.Run) {
 		extLen = 3
 	}
 	r.Bound("T-tokens-ext.alphabet_size", len(tokAlphabetExt))
-	r.Bound("T-tokens-ext.extra_tokens", []string{"#xF", "#o7", "1", "\"u\\n", "#", "\\x80", "1.", "U+FEFF", "U+FFFD"})
+	r.Bound("T-tokens-ext.extra_tokens", []string{"#xF", "#o7", "1", "\"u\\n", "#", "\\x80", "1.", "U+FEFF", "U+FFFD", "\"t\"", "\"\""})
 	r.Bound("T-tokens-ext.max_len", extLen)
 	for n := 1; n <= extLen; n++ {
 		n := n
